@@ -470,9 +470,10 @@ func (r Rule) canSplit(path string) bool {
 // splitPos returns the index where path should be split
 // based on rule.SplitPath.
 func (r Rule) splitPos(path string) int {
-	if httpserver.CaseSensitivePath {
-		return strings.Index(path, r.SplitPath)
-	}
+	// (in any letter case, also when request paths are otherwise matched
+	// case-sensitively: the extension test of ServeHTTP folds case too,
+	// and a script that "cannot be split" went to the next handler, the
+	// file server, as text)
 	// look for the split string in path itself: a position in the
 	// lower-cased path is not one in path when lowering changes the
 	// length of what precedes it (invalid UTF-8, letters like U+023A)
